@@ -568,6 +568,32 @@ var injectKinds = []*Kind{
 		p.W("\t%s", p.Y("c.W("+itoa(p.ID())+", v)"))
 		p.W("}")
 	}},
+	// the yields of the unsupported range body are all nested in another statement
+	{Name: "XRangePtrTySw", Yields: true, Print: func(p *Printer, s *Stmt) {
+		p.W("for _, v := range &[2]int{%d, %d} {", p.ID(), p.ID())
+		p.W("\tswitch any(v).(type) {")
+		p.W("\tcase int:")
+		p.W("\t\t%s", p.Y("c.W("+itoa(p.ID())+", v)"))
+		p.W("\t}")
+		p.W("}")
+	}},
+	{Name: "XRangePtrSw", Yields: true, Print: func(p *Printer, s *Stmt) {
+		p.W("for _, v := range &[2]int{%d, %d} {", p.ID(), p.ID())
+		p.W("\tswitch {")
+		p.W("\tcase v > 0:")
+		p.W("\t\t%s", p.Y("c.W("+itoa(p.ID())+", v)"))
+		p.W("\t}")
+		p.W("}")
+	}},
+	{Name: "XRangePtrIfFor", Yields: true, Print: func(p *Printer, s *Stmt) {
+		p.W("for _, v := range &[2]int{%d, %d} {", p.ID(), p.ID())
+		p.W("\tif v > 0 {")
+		p.W("\t\tfor k := 0; k < 1; k++ {")
+		p.W("\t\t\t%s", p.Y("c.W("+itoa(p.ID())+", v)"))
+		p.W("\t\t}")
+		p.W("\t}")
+		p.W("}")
+	}},
 	{Name: "XIfInitY", Arity: 1, Yields: true, EventFirst: true, Print: func(p *Printer, s *Stmt) {
 		y := yieldStmt(p)
 		p.W("if %s; c.B(%d) {", y, p.ID())
@@ -737,7 +763,7 @@ func InjectStmts() []*Stmt {
 		{K: "XSelect", Ch: [][]*Stmt{{y}}}, {K: "XSelect", Ch: [][]*Stmt{{e}}},
 		{K: "XDefer"}, {K: "XDeferIf"}, {K: "XDeferLoop"}, {K: "XSelectBrk"}, {K: "NRangePtrBrk"},
 		{K: "XFall", Ch: [][]*Stmt{{y}, {e}}}, {K: "XFall", Ch: [][]*Stmt{{e}, {y}}},
-		{K: "XRangePtrArr"},
+		{K: "XRangePtrArr"}, {K: "XRangePtrTySw"}, {K: "XRangePtrSw"}, {K: "XRangePtrIfFor"},
 		{K: "XIfInitY", Ch: [][]*Stmt{{e}}}, {K: "XIfInitY", Ch: [][]*Stmt{{y}}},
 		{K: "XCloY"},
 		{K: "XElifInitY", Ch: [][]*Stmt{{e}}}, {K: "XElifInitY", Ch: [][]*Stmt{{y}}}, {K: "XElifInitY2", Ch: [][]*Stmt{{e}}}, {K: "XSwInitInElif", Ch: [][]*Stmt{{e}}},
